@@ -43,7 +43,7 @@ ASSUMPTIONS = ["the reclamation bound is circuit_timeout + (hops + 2) x (max_tim
 REACH = ["dropped:destroy", "dropped:CreatedPayload", "dropped:ExtendedPayload", "dropped:ExtendPayload", "dropped:CreatePayload", "dropped:relayed_handshake",
          "reclaimed_by_timeout_only", "exit_transports_closed", "originator_crash", "join_refused_at_limit",
          "relay_early_over_budget_dropped", "exit_wants_unbuildable_tunnels", "chatty_outside_peer", "phase:half", "phase:ready", "phase:transfer",
-         "phase:first_packet", "teardown_right_behind_first_packet", "pool_node_wants_tunnels"]
+         "phase:first_packet", "teardown_right_behind_first_packet", "pool_node_wants_tunnels", "greedy_exit_burst"]
 
 DESTROY_ID = 8
 CONTROL = ("CreatePayload", "CreatedPayload", "ExtendPayload", "ExtendedPayload")
@@ -99,6 +99,10 @@ def cases(tier: str, base_seed: int):  # noqa: ANN201
             for t in (0.5, 2.5):
                 yield {"seed": base_seed, "knobs": {"lat_jit": 0.0}, "cfg": {"hops": hops, "who": "crash", "phase": "ready"}, "drops": [],
                        "extra": [{"kind": "hop_wants_tunnels", "node": node, "t": t}]}
+    for hops in (2, 3):
+        for phase in ("ready", "transfer"):
+            yield {"seed": base_seed, "knobs": {"lat_jit": 0.0}, "cfg": {"hops": hops, "who": "originator", "phase": phase}, "drops": [],
+                   "extra": [{"kind": "greedy_exit"}]}
     # the first data packet chased by the teardown, with and without the removal grace period
     for hops in (1, 2):
         for who in ("originator", "exit"):
@@ -138,7 +142,7 @@ def cases(tier: str, base_seed: int):  # noqa: ANN201
                 {"kind": "crash", "node": rng.choice(["hop1", "exit"]), "t": rng.choice([0.2, 2.0, 6.0])},
                 {"kind": "jump", "node": rng.choice(["o", "hop1", "exit"]), "delta": rng.choice([-30.0, -5.0, 10.0, 120.0]),
                  "t": rng.choice([1.0, 5.0, 20.0])},
-                {"kind": "greedy"}, {"kind": "join_limit", "limit": rng.choice([1, 2, 3])},
+                {"kind": "greedy"}, {"kind": "greedy_exit"}, {"kind": "join_limit", "limit": rng.choice([1, 2, 3])},
                 {"kind": "exit_wants_tunnels"}, {"kind": "chatty_outside", "every": rng.choice([3.0, 5.0, 15.0])},
                 {"kind": "hop_wants_tunnels", "node": rng.choice(["exit", "hop1"]), "t": rng.choice([0.3, 1.0, 2.5, 4.0])},
                 {"kind": "stall", "node": rng.choice(["hop1", "exit"]), "t": rng.choice([0.5, 3.0]), "d": rng.choice([2.0, 30.0])}]))
@@ -309,6 +313,25 @@ def execute(case: dict) -> dict:  # noqa: C901, PLR0915
             o.call(o.ov.send_data, circ.hop.address, circ.circuit_id, UDPv4Address(*w.address), ("0.0.0.0", 0), b"d" + b"first" + b"e")
             if cfg.get("gap"):
                 await asyncio.sleep(cfg["gap"])
+        if any(e["kind"] == "greedy_exit" for e in extra) and hops >= 2 and circ.state == "READY":
+            # a misbehaving EXIT: a burst of relay_early-flagged cells travelling backwards through the relays
+            from ipv8.messaging.anonymization.payload import CellPayload
+            pth = tw.path_of(o, circ)
+            xg = pth[-1] if len(pth) == hops else None
+            if xg is not None and xg.name not in loop.dead:
+                for cid_x, es in list(xg.ov.exit_sockets.items()):
+                    ce = xg.ov.crypto_endpoint
+                    for k in range(25):
+                        cell = CellPayload(cid_x, b"\x01" + bytes(14) + b"d" + b"%03d" % k + b"e", False, True)
+                        try:
+                            ce.encrypt_cell(cell, 1, es.hop)
+                        except Exception:  # noqa: BLE001, S112
+                            continue
+                        raw_cell = cell.to_bin(ce.prefix)
+                        st.setdefault("crafted_cells", set()).add(raw_cell)
+                        xg.call(ce.endpoint.send, es.hop.address, raw_cell)
+                    world.probe("greedy_exit_burst")
+                await asyncio.sleep(1.0)
         chatty = next((e for e in extra if e["kind"] == "chatty_outside"), None)
         if chatty is not None and w.received:
             # the outside world keeps talking to the exit's socket after the circuit is gone
@@ -418,7 +441,7 @@ def execute(case: dict) -> dict:  # noqa: C901, PLR0915
     fw: dict = {}
     for pkt in tw.wire:
         parts = cell_parts(pkt.data)
-        if parts is None or pkt.label != 0 or pkt.injected:
+        if parts is None or pkt.label != 0 or pkt.injected or pkt.data in st.get("crafted_cells", ()):
             continue          # label 0 = forwarded by relay_cell (cells a node originates carry their payload name)
         if parts[2]:
             key = (pkt.src_node, parts[0])
